@@ -297,6 +297,7 @@ def try_shrink(mod, case, still_fails, budget=200):
 
 def run_property(prop, tier, seed, replay=None):
     t0 = time.time()
+    setup_repo_import()
     modname = "harness.props." + prop.lower()
     mod = importlib.import_module(modname)
     ctx = Ctx(prop, tier, seed)
